@@ -25,7 +25,7 @@ def sh(cmd, cwd=None, timeout=3600):
 
 
 def harvest(wt, pid):
-    for k in ('m1', 'm2'):
+    for k in sorted(x for x in os.listdir(wt) if x.startswith('m') and x[1:].isdigit()):
         src = os.path.join(wt, k)
         if not os.path.isdir(src):
             continue
